@@ -13,7 +13,6 @@ Scen == IF MODE = "prog" THEN JsonDeserialize(IOEnv.SCEN) ELSE <<>>
 VARIABLES text, closed, sid, ops, res
 vars == <<text, closed, sid, ops, res, cursor, status, lastval>>
 
-COLON == 58
 \* the DATA statement ends at the first colon outside quotes
 RECURSIVE CutAt(_, _, _)
 CutAt(s, i, inq) == IF i > Len(s) THEN Len(s)
